@@ -7,6 +7,7 @@ import (
 	"time"
 
 	"kvassverif/core"
+	"kvassverif/sched"
 	"kvassverif/sidecarsim"
 
 	"tkestack.io/kvass/pkg/shard"
@@ -228,7 +229,7 @@ func modelRunBubble(tp *core.Tape, e *core.Env, cfg nodeCfg) (ops []opRec) {
 			check("restart")
 		case 3: // advance the clock, change the Prometheus head
 			d := time.Duration(1+tp.Choose("advance_s", 120)) * time.Second
-			time.Sleep(d)
+			sched.Sleep(d)
 			n.Head = int64(tp.Choose("prom_head", 6)) * 9
 			e.Logf("op %d advance %s head=%d", i, d, n.Head)
 			ops = append(ops, opRec{"advance", d.String()})
